@@ -186,9 +186,17 @@ def rule_d(repo, chk):
     chk.ob('C05.d', ok, lp[0] if lp else f, 'every token spelled like the name is examined in every candidate module (no break/continue)')
 
 
+def rule_e(repo, chk):
+    chk.clause('C05.e', 'occurrences in other files of the project reach rename through the project-wide search, whose pre-filter must not lose '
+                        'a file that mentions the name (checked as C19.c; re-run here)')
+    from . import c19
+    from ..report import Relabel
+    c19.rule_c(repo, Relabel(chk, 'C05.e'))
+
+
 def describe(chk):
     chk.undecided('behaviour preservation of the renamed program, the partition property of get_references, the byte round trip (all run-time); '
                   'which modules are candidates (get_module_contexts_containing_name)')
 
 
-RULES = [('C05.a', rule_a), ('C05.b', rule_b), ('C05.c', rule_c), ('C05.d', rule_d)]
+RULES = [('C05.a', rule_a), ('C05.b', rule_b), ('C05.c', rule_c), ('C05.d', rule_d), ('C05.e', rule_e)]
